@@ -261,3 +261,15 @@ class C18(Spec):
 
 
 SPEC = C18()
+
+REGISTRY = dict(
+    text="FULL: Lean theorems (Earverif.Cursor.ops_refine, seek_spec, read_spec, tell_spec, iter_refines, "
+    "specIter_tiles) prove for every operation sequence, file size and cursor that the byte-level model of "
+    "Bw64Reader.seek/tell/read/iter_sample_blocks refines a list-plus-cursor specification; the model is tied to "
+    "the code on every run by driving the real reader and the Lean model with the same generated operation "
+    "sequences (exhaustive over a boundary alphabet up to a length bound, then random) and diffing outputs.",
+    note="Trusted: Lean kernel, hand transliteration of the reader's cursor arithmetic + correspondence harness, "
+    "BytesIO semantics as modelled. Quantifier limits: read(n>=0), iter block size >= 1 (0 hangs in the real code).",
+    technique="Lean 4 refinement proof (induction over operation sequences) + differential correspondence with the real reader",
+    design_ref="DESIGN.md section 4, C18",
+)
